@@ -100,6 +100,12 @@ Theorem C02_rt_context_independent_if_cast :
 Proof. exact rt_context_independent_if_cast. Qed.
 Print Assumptions C02_rt_context_independent_if_cast.
 
+(* a compile-time count takes the emitter's fast path (rt_bin_k); it computes what the helper computes:
+   checked exhaustively for int8 and uint8 (all values, counts -2 .. 9, << >> >>>); wider types: probes *)
+Theorem C02_const_count_shift_eq_helper_8bit : fast_eq_helper_on I8 = true /\ fast_eq_helper_on U8 = true.
+Proof. exact fast_eq_helper_8. Qed.
+Print Assumptions C02_const_count_shift_eq_helper_8bit.
+
 (* comparisons: exact on both sides, for all types (mixed signedness included) and values *)
 Theorem C02_comparisons_agree : forall o lt rt a b, wf_ity lt -> wf_ity rt -> is_cmpop o = true ->
   in_range lt a -> in_range rt b ->
